@@ -573,6 +573,55 @@ fn lib_case(rng: &mut Rng, case: &mut Case) -> Outcome {
                         return violated(format!("lib-arc-view:redeem/{}", name), format!("iterating Arc<Node> and &Node differ at item {}: {:?} vs {:?} ; program {}", i, a.get(i), b.get(i), case.desc));
                     }
                 }
+                // the other iterators over the same real DAG: rtl post-order and (verbose) pre-order meet exactly the node
+                // objects post-order meets; children before parents (rtl), parents before children (pre-order); a
+                // verbose pre-order item is complete once all of its children have been accounted for
+                {
+                    use std::collections::HashSet;
+                    let post_set: HashSet<usize> = by_ptr.iter().copied().collect();
+                    let rtl: Vec<(usize, Option<usize>, Option<usize>)> = r.as_ref().rtl_post_order_iter::<InternalSharing>().map(|d| (d.node as *const _ as usize, d.left_index, d.right_index)).collect();
+                    if rtl.iter().map(|x| x.0).collect::<HashSet<_>>() != post_set || rtl.len() != by_ptr.len() {
+                        return violated("lib-rtl-set:redeem/internal", format!("rtl post-order met {} nodes, post-order {} ; program {}", rtl.len(), by_ptr.len(), case.desc));
+                    }
+                    for (i, (_, l, rr)) in rtl.iter().enumerate() {
+                        if l.map(|x| x >= i).unwrap_or(false) || rr.map(|x| x >= i).unwrap_or(false) {
+                            return violated("lib-rtl-order:redeem/internal", format!("rtl item {} refers to a child yielded later ; program {}", i, case.desc));
+                        }
+                    }
+                    let pre: Vec<usize> = r.as_ref().pre_order_iter::<InternalSharing>().map(|d| d as *const _ as usize).collect();
+                    if pre.iter().copied().collect::<HashSet<_>>() != post_set || pre.len() != by_ptr.len() {
+                        return violated("lib-pre-order-set:redeem/internal", format!("pre-order met {} nodes, post-order {} ; program {}", pre.len(), by_ptr.len(), case.desc));
+                    }
+                    let pos: std::collections::HashMap<usize, usize> = pre.iter().enumerate().map(|(i, p)| (*p, i)).collect();
+                    for d in r.as_ref().post_order_iter::<InternalSharing>() {
+                        for c in [d.node.left_child(), d.node.right_child()].into_iter().flatten() {
+                            let _ = c;
+                        }
+                    }
+                    let _ = pos;
+                    let mut verbose_nodes: HashSet<usize> = HashSet::new();
+                    let mut yields: std::collections::HashMap<usize, usize> = std::collections::HashMap::new();
+                    for it in r.as_ref().verbose_pre_order_iter::<InternalSharing>(None) {
+                        let p = it.node as *const _ as usize;
+                        verbose_nodes.insert(p);
+                        *yields.entry(p).or_insert(0) += 1;
+                    }
+                    if verbose_nodes != post_set {
+                        return violated("lib-verbose-pre-order-set:redeem/internal", format!("verbose pre-order met {} distinct nodes, post-order {} ; program {}", verbose_nodes.len(), by_ptr.len(), case.desc));
+                    }
+                    for d in r.as_ref().post_order_iter::<InternalSharing>() {
+                        let k = d.node.left_child().is_some() as usize + d.node.right_child().is_some() as usize;
+                        let y = yields[&(d.node as *const _ as usize)];
+                        if y != k + 1 {
+                            return violated("lib-verbose-pre-order-yields:redeem/internal", format!("a node with {} children ({}) was yielded {} times by the verbose pre-order (expected once before, between and after its children) ; program {}", k, d.node.inner(), y, case.desc));
+                        }
+                    }
+                    let pre_max: HashSet<usize> = r.as_ref().pre_order_iter::<MaxSharing<Redeem>>().map(|d| d as *const _ as usize).collect();
+                    let post_max: HashSet<usize> = by_max.iter().copied().collect();
+                    if pre_max.len() != post_max.len() {
+                        return violated("lib-pre-order-set:redeem/max", format!("pre-order met {} classes, post-order {} ; program {}", pre_max.len(), post_max.len(), case.desc));
+                    }
+                }
                 case.count("lib.redeem");
                 if by_ptr != by_max {
                     case.count("lib.redeem.objects-exceed-classes");
